@@ -1,4 +1,4 @@
 SPECIFICATION Spec
-CONSTANTS MaxPacks = 3  AtomicWrite = TRUE
+CONSTANTS MaxPacks = 3  AtomicWrite = TRUE  RefPerPack = FALSE
 INVARIANTS PathsWellFormed CrashAtomic ClockNeverTorn
 CHECK_DEADLOCK FALSE
